@@ -34,8 +34,10 @@ impl TryFrom<String> for BuildpackVersion {
         match value
             .split('.')
             .map(|s| {
-                // The spec forbids redundant leading zeros.
-                if s.starts_with('0') && s != "0" {
+                // The spec forbids redundant leading zeros. It doesn't permit signs either, but
+                // `u64::from_str` accepts a leading `+`, so only plain ASCII digits are parsed.
+                if (s.starts_with('0') && s != "0") || !s.bytes().all(|byte| byte.is_ascii_digit())
+                {
                     None
                 } else {
                     s.parse().ok()
